@@ -149,6 +149,25 @@ class Exec:
         if k == "get_result":
             self._check_result()
             return
+        if k == "read_views":
+            # the user looks at the intermediate result (plots it) and carries on; looking must
+            # not change what is simulated next
+            res = sim.get_result()
+            if not isinstance(res.value, Exception):
+                try:
+                    _ = res.value.variables
+                    _ = res.value.fluxes
+                    if op.get("more"):
+                        _ = res.value.get_right_hand_side()
+                        _ = res.value.get_producers(ref.names[0], scaled=True)
+                except Exception as e:  # noqa: BLE001
+                    self.trace.add("read_views", "exc", type(e).__name__)
+                    return
+            self.counters["read_views_between_segments"] += 1
+            if self.ctx == "param":
+                self.counters["probe:views_read_between_parameter_change_and_next_segment"] += 1
+            self.trace.add("read_views")
+            return
         if k == "steady_state":
             self._steady(op)
             return
@@ -624,18 +643,20 @@ class Gen:
             return {"op": kind, "tolerance": r.choice([1e-6, 1e-8]), "rel_norm": r.random() < 0.3}
         if kind in ("clear", "get_result"):
             return {"op": kind}
+        if kind == "read_views":
+            return {"op": kind, "more": r.random() < 0.4}
         raise HarnessError(kind)
 
 
 OPS_C04 = {
     "simulate": 5, "time_course": 4, "protocol": 1.5, "protocol_tc": 1.5, "update_parameter": 2, "update_parameters": 1,
     "scale_parameter": 1, "scale_parameters": 0.5, "update_variable": 2.5, "update_variables": 1, "steady_state": 1.2,
-    "clear": 0.7, "get_result": 1,
+    "clear": 0.7, "get_result": 1, "read_views": 1.2,
 }
 OPS_C14 = {
     "simulate": 1.5, "time_course": 1, "protocol": 5, "protocol_tc": 5, "update_parameter": 1, "update_parameters": 0.5,
     "scale_parameter": 0.3, "scale_parameters": 0.2, "update_variable": 1.2, "update_variables": 0.5, "steady_state": 0.3,
-    "clear": 0.5, "get_result": 0.5,
+    "clear": 0.5, "get_result": 0.5, "read_views": 1.0,
 }
 
 
